@@ -229,10 +229,14 @@ var $setTimeout = (f, t) => {
     }, t);
 };
 
-var $block = () => {
+var $assertCanBlock = () => {
     if ($curGoroutine === $noGoroutine) {
         $throwRuntimeError("cannot block in JavaScript callback, fix by wrapping code in goroutine");
     }
+};
+
+var $block = () => {
+    $assertCanBlock();
     $curGoroutine.asleep = true;
 };
 
@@ -257,6 +261,7 @@ var $send = (chan, value) => {
         return;
     }
 
+    $assertCanBlock(); /* before the entry is queued: a failed callback must leave nothing behind */
     var thisGoroutine = $curGoroutine;
     var closedDuringSend;
     chan.$sendQueue.push(closed => {
@@ -286,6 +291,7 @@ var $recv = chan => {
         return [chan.$elem.zero(), false];
     }
 
+    $assertCanBlock();
     var thisGoroutine = $curGoroutine;
     var f = { $blk() { return this.value; } };
     var queueEntry = v => {
@@ -361,6 +367,7 @@ var $select = comms => {
         }
     }
 
+    $assertCanBlock();
     var entries = [];
     var thisGoroutine = $curGoroutine;
     var f = {
